@@ -331,6 +331,14 @@ static void probe_conn(struct agent *a, struct agent *p)
     short rev;
     const char *tn = vtp_name[a->ep.tp];
     check_fd_identity(a);
+    /* if XCM still has a timer armed at this idle point, let it expire first: whatever it does must not
+       make an idle connection readable (the timer itself is not judged, only the readability after it) */
+    if (vs_armed_timers() > 0) {
+        double t0 = vnow(), lim = va.thorough ? 3.6 : 1.2;
+        vobs("idle_points_with_armed_xcm_timer", 1);
+        while (vs_armed_timers() > 0 && vnow() - t0 < lim) { struct pollfd none; vs_real_poll(&none, 0, 5); }
+        if (vs_armed_timers() == 0) vobs("armed_timers_waited_out", 1);
+    }
     /* condition 0 */
     vx_await(&a->ep, 0);
     vobs("probe_cond0", 1);
@@ -632,6 +640,8 @@ static void one_case(long idx, void *arg)
         }
         vdns_set(&dp);
     }
+    if (prop == PROP_C16 && vtp_is_tcp_based(c.tp) && c.tp != TP_UTLS_UX && !xcm_attr_map_exists(cm, "tcp.connect_timeout") && vrnd_p(&rng, 50))
+        xcm_attr_map_add_double(cm, "tcp.connect_timeout", 0.05 + vrnd_n(&rng, 30) / 100.0);
     struct agent *C = new_agent(R_CLIENT, c.tp, vmix(c.sub_seed ^ 6));
     apply_plan(&C->ep.plan, c.plan_class);
     {
